@@ -394,7 +394,22 @@ def replay_reconnect(model, rec):
                 await asyncio.sleep(0)
                 if len(ran) != n:
                     return True, f"asyncio transport: loss #{n} started {len(ran) - (n - 1)} reconnects (connect ran {len(ran)} times after {n} losses)"
-            return False, "three losses, three reconnects"
+            # a second loss in the very loop iteration in which the first reconnect has finished but its
+            # done-callbacks have not run yet: the reconnect that stop() can find must be the second one
+            ran.clear()
+            tr = TR.AsyncTransport(mock.MagicMock(), connect)
+            tr.protocol.conn_lost_callback()
+            await asyncio.sleep(0)  # the first reconnect runs to its end; its done-callbacks are still queued
+            tr.protocol.conn_lost_callback()
+            second = tr.connect_task
+            for _ in range(3):
+                await asyncio.sleep(0)
+            if tr.connect_task is not second:
+                return True, (
+                    "asyncio transport: a second loss right after the first reconnect completed; afterwards transport.connect_task is "
+                    f"{tr.connect_task!r} and no longer the reconnect task of the second loss - stop() cannot cancel that one"
+                )
+            return False, "three losses, three reconnects; the latest reconnect stays tracked"
 
         return asyncio.run(scenario())
     started = []
@@ -1191,3 +1206,31 @@ def replay_stop_during_retry(model, rec):
 
 
 HOOKS.insert(0, (re.compile(r"sync-(tcp|serial)_connect|sync_connect\.loop0"), replay_stop_during_retry))
+
+
+def replay_connection_lost(model, rec):
+    """a loss reported to a real protocol object - with an error, and with None (a close the library or the user
+    asked for): the connection-lost callback fires once with that cause and the protocol forgets the dead connection"""
+    from unittest import mock
+
+    from mysensors import transport as TR
+    from mysensors.gateway_tcp import AsyncTCPMySensorsProtocol
+
+    for cls in (TR.BaseMySensorsProtocol, TR.AsyncMySensorsProtocol, AsyncTCPMySensorsProtocol):
+        for exc in (None, OSError("read failed")):
+            gw = mock.MagicMock()
+            p = cls(gw, mock.MagicMock())
+            dead = mock.MagicMock()
+            p.transport = dead
+            try:
+                p.connection_lost(exc)
+            except Exception as e:  # noqa: BLE001
+                return True, f"{cls.__name__}.connection_lost({exc!r}) raised {type(e).__name__}: {e}"
+            if gw.on_conn_lost.call_count != 1 or gw.on_conn_lost.call_args[0][1] is not exc:
+                return True, f"{cls.__name__}.connection_lost({exc!r}): the connection-lost callback was called {gw.on_conn_lost.call_count} times / with {gw.on_conn_lost.call_args}"
+            if p.transport is not None:
+                return True, f"{cls.__name__}.connection_lost({exc!r}): protocol.transport still is the dead connection - a later send writes to it"
+    return False, "every loss is reported once and the dead connection is forgotten"
+
+
+HOOKS.insert(0, (re.compile(r"^_?connection_lost\[.*\]\.(connection-forgotten|callback)"), replay_connection_lost))
